@@ -1535,6 +1535,13 @@ class FortranFile:
                     name, dims = self.parse_imp_dim(name)
                     name, char_len = self.parse_imp_char(name)
                     if dims:
+                        # The entity's own array specification replaces the one
+                        # of a DIMENSION attribute
+                        var_keywords = [
+                            keyword
+                            for keyword in var_keywords
+                            if not keyword.upper().startswith("DIMENSION")
+                        ]
                         var_keywords.append(dims)
                     if char_len:
                         desc += char_len
